@@ -29,16 +29,22 @@ var _ fs.FileInfo = c16SizeInfo{}
 func c16CopyOne(chunked, shortWrite bool, failRead, failWrite int) {
 	max := vp.Bound("filelen", 6, 10)
 	calls := vp.Bound("readcalls", 4, 6)
+	if chunked {
+		// symbolic piece boundaries make every byte an ite chain: smaller bounds
+		max = vp.Bound("filelen.chunked", 4, 8)
+		calls = vp.Bound("readcalls.chunked", 3, 5)
+	}
 	if shortWrite {
 		// every split of every piece is a separate path: keep the product small
 		max = vp.Bound("filelen.shortwrite", 4, 5)
-		calls = vp.Bound("readcalls.shortwrite", 3, 4)
+		calls = vp.Bound("readcalls.shortwrite", 2, 4)
 	}
 	sf := c16SymFile("f", "src", max)
 	S := c16NewFS("S", c16Dir(".", sf))
 	D := c16NewFS("D", c16Dir("."))
 	S.chunked, S.maxCall, S.failRead = chunked, calls+1, failRead
 	D.shortWrite, D.failWrite = shortWrite, failWrite
+	S.store, D.store = max, max
 	infoSize := vp.I64("info.size")
 	info := c16SizeInfo{c16Info{sf}, infoSize}
 	vp.Unwind(max + calls + 5)
@@ -97,10 +103,10 @@ func VP_C16_copy_one_writeerr0() { c16CopyOne(true, false, -1, 0) }
 func VP_C16_copy_one_writeerr1() { c16CopyOne(true, true, -1, 1) }
 
 // VP_C16_copy_one_big: the streaming path on a sparse all-zero source of arbitrary length
-// 0..2*32 KiB+9 (more than one 32 KiB buffer; the 64 MiB threshold is passed through info.Size()),
+// 0..32 KiB+9 (thorough 3*32 KiB+9: more than one 32 KiB buffer; the 64 MiB threshold is passed through info.Size()),
 // read in arbitrary pieces, written with full writes. Oracle: nil and destination length = source length.
 func VP_C16_copy_one_big() {
-	max := vp.Bound("biglen", 2*32768+9, 3*32768+9)
+	max := vp.Bound("biglen", 32768+9, 3*32768+9)
 	sf := c16BigFile("f", "src", max)
 	S := c16NewFS("S", c16Dir(".", sf))
 	D := c16NewFS("D", c16Dir("."))
@@ -156,13 +162,14 @@ func (u *c16Under) Write(p []byte) (int, error) {
 	return c, nil
 }
 
-// VP_C16_limit_writer: three consecutive Writes of arbitrary buffers (length 0..8) through a
+// VP_C16_limit_writer: three consecutive Writes of arbitrary buffers (length 0..4, thorough 0..8) through a
 // LimitedWriter with an arbitrary int64 limit. Oracle (straight from the type's doc comment):
 // never more than N bytes in total reach W, what reaches W is a prefix of what was offered, in
 // order, the returned count is what W accepted, N is decremented by exactly that, and once N is
 // used up W is not called any more and the caller is told so by an error.
 func VP_C16_limit_writer() {
 	limit := vp.I64("limit")
+	maxLen := vp.Bound("buflen", 4, 8)
 	u := &c16Under{}
 	w := NewLimitWriter(u, limit)
 	lw, ok := w.(*LimitedWriter)
@@ -173,7 +180,7 @@ func VP_C16_limit_writer() {
 	for r := 0; r < 3; r++ {
 		p := vp.Bytes("p"+string(rune('0'+r)), 8)
 		l := int(vp.U8("len"+string(rune('0'+r))) & 15)
-		vp.Assume(l <= 8)
+		vp.Assume(l <= maxLen)
 		before := u.calls
 		n, err := w.Write(p[:l])
 		if remaining <= 0 {
